@@ -230,7 +230,12 @@ namespace sqf::runtime
         sqf::runtime::instruction_set::iterator peek() const { bool flag; return peek(flag); }
         sqf::runtime::instruction_set::iterator peek(bool& success) const
         {
-            auto pos = m_position >= m_instruction_set.size() ? m_instruction_set.size() - 1 : m_position + 1;
+            // before the first instruction the position is position_invalid: the next instruction is the first one;
+            // at or behind the last instruction there is none
+            size_t pos;
+            if (m_position == position_invalid) { pos = 0; }
+            else if (m_position + 1 >= m_instruction_set.size()) { pos = m_instruction_set.size(); }
+            else { pos = m_position + 1; }
             auto it = m_instruction_set.begin() + pos;
             success = it != m_instruction_set.end();
             return it;
